@@ -90,3 +90,8 @@ Theorem bounds_incr eps coords : 0 <= eps -> incr (dedup eps (sort coords)).
 Proof.
   intro He. destruct (sort coords) as [|x l]; cbn [dedup]; [exact I|]. apply dedup_from_gap. exact He.
 Qed.
+
+Theorem boundaries_spec eps coords : 0 <= eps ->
+  incr (dedup eps (sort coords)) /\
+  (sep eps coords -> forall v, In v (dedup eps (sort coords)) <-> In v coords).
+Proof. intro He. split; [apply bounds_incr; exact He|]. intro Hs. apply bounds_spec; assumption. Qed.
